@@ -309,9 +309,24 @@ fn interesting(r: &mut Rng, bits: u32) -> u64 {
         3 => max >> 1,
         4 => (max >> 1) + 1,
         5 => max - 1,
+        6 => {
+            // a value of every width: the boundaries of the narrower types lie inside the wider ones (2^31 and 2^32 for a u64)
+            let w = r.range(1, bits as usize) as u32;
+            let top = 1u64 << (w - 1);
+            match r.below(4) {
+                0 => top,
+                1 => top - 1,
+                2 => (top | (r.next() & (top - 1))) & max,
+                _ => ((top << 1).wrapping_sub(1)) & max,
+            }
+        }
         _ => r.next() & max,
     }
 }
+
+const BOUND64: &[u64] = &[
+    1 << 31, (1 << 32) - 1, (1 << 31) - 1, 1 << 32, u64::MAX, 1 << 63, 0, (1 << 63) - 1, (1 << 31) + 12345, (1 << 32) + 1, 0xFFFF_FFFF_8000_0000, 1,
+];
 
 pub const PATHS: &[&str] = &["builder", "moditer", "modifier"];
 
@@ -352,7 +367,11 @@ pub fn run(ctx: &mut Ctx) {
                     4 => 0x8000_0000,
                     _ => r.next() & 0xFFFF_FFFF,
                 },
-                ("i64", _) | ("u64", _) => interesting(&mut r, 64),
+                // the first rounds over the helpers walk the boundaries of the narrower types inside the 64-bit range
+                ("i64", _) | ("u64", _) => match BOUND64.get((case / nh) as usize) {
+                    Some(v) => *v,
+                    None => interesting(&mut r, 64),
+                },
                 ("f64", _) => match r.below(6) {
                     0 => 0x7FF8_0000_0000_0000,
                     1 => 0x7FF4_0000_0000_0001,
